@@ -1,14 +1,44 @@
 """Boundary execution helper: construct a DDLParser on the snapshot and run it."""
 
 
+# Shadow oracle, active in every check: a small share of the parse() calls is repeated (a) as a second run() on the same object and
+# (b) through parse_from_file(path, parser_settings=ctor, **run_kw); both must return exactly what the plain call returned.  The
+# worker turns the recorded differences into violations of the property whose check was running: whatever the property says about the
+# result of run() has to hold for every way of asking for it.
+SHADOW = {"p": 0.0, "rng": None, "found": [], "n": 0}
+
+
 def parse(ddl, ctor=None, **run_kw):
     """returns ("ok", result) or ("exc", "TypeName", "message")"""
     from simple_ddl_parser import DDLParser
     try:
         p = DDLParser(ddl, **(ctor or {}))
-        return ("ok", p.run(**run_kw))
+        out = ("ok", p.run(**run_kw))
     except Exception as e:  # the exception *is* the observation
         return ("exc", type(e).__name__, str(e)[:300])
+    sh = SHADOW
+    if sh["p"] and sh["rng"] is not None and sh["rng"].random() < sh["p"]:
+        _shadow(p, ddl, ctor, run_kw, out[1])
+    return out
+
+
+def _shadow(p, ddl, ctor, run_kw, first):
+    import copy
+    sh = SHADOW
+    sh["n"] += 1
+    keep = copy.deepcopy(first)
+    try:
+        again = ("ok", p.run(**run_kw))
+    except Exception as e:
+        again = ("exc", type(e).__name__, str(e)[:200])
+    if again != ("ok", keep) and len(sh["found"]) < 20:
+        sh["found"].append({"path": "second run() on the same object", "ddl": ddl, "ctor": ctor or {}, "run_kw": run_kw, "observed": again, "first_call": keep})
+    if first != keep and len(sh["found"]) < 20:
+        sh["found"].append({"path": "result of the first run() modified by the second", "ddl": ddl, "ctor": ctor or {}, "run_kw": run_kw, "observed": first, "first_call": keep})
+    if "\r" not in ddl and not ({"file_path", "dump", "dump_path"} & set(run_kw)):
+        vf = parse_via_file(ddl, ctor, **run_kw)
+        if vf != ("ok", keep) and len(sh["found"]) < 20:
+            sh["found"].append({"path": "parse_from_file(path, parser_settings=ctor, **run_kw)", "ddl": ddl, "ctor": ctor or {}, "run_kw": run_kw, "observed": vf, "first_call": keep})
 
 
 def entities(result):
